@@ -539,3 +539,107 @@ def run_routing(pool_specs, emissions):
         return [(type(e).__name__, e.payload(), getattr(e, 'serial', None)) for e in emitted], streams
     finally:
         events.clear()
+
+
+# ------------------------------------------------------------------ pools added and removed at run time
+
+class LivePoolConfig(FakePoolConfig):
+    """Group config of a listener pool as Supervisor.add_process_group uses it:
+    make_group() builds the real EventListenerPool (which subscribes)."""
+    def __init__(self, options, name, pool_events, registry):
+        FakePoolConfig.__init__(self, options, name, pool_events)
+        self.registry = registry
+
+    def after_setuid(self):
+        pass
+
+    def make_group(self):
+        pool = process.EventListenerPool(self)
+        for proc in pool.processes.values():
+            proc.state = ProcessStates.RUNNING
+            proc.pid = 4242
+            proc.listener_state = EventListenerStates.READY
+            proc.pipes = {'stdin': 7}
+            proc.dispatchers = {7: dispatchers.PInputDispatcher(proc, 'stdin', 7)}
+        self.registry.append({'name': self.name, 'pool': pool, 'opts': self.options, 'alive': True,
+                              'types': list(self.pool_events), 'stream': b''})
+        return pool
+
+
+def run_pool_history(ops):
+    """ops: ('add_pool', name, [EventTypes names]) | ('remove_pool', name) | an
+    emission of run_routing.  Pools are added with the real
+    Supervisor.add_process_group and removed with the real
+    Supervisor.remove_process_group (their listener stopped first, as
+    supervisorctl remove requires), so PROCESS_GROUP_ADDED / REMOVED are raised by
+    the real code as well.
+
+    Returns (emitted, incarnations): emitted = [(class name, payload, serial,
+    [indices of the incarnations alive when it was raised], index of the op that raised it)]; incarnations =
+    [{'name', 'types', 'stream' (bytes on the listener's stdin), 'alive'}]."""
+    from supervisor import rpcinterface
+    events.clear()
+    process.GlobalSerial.serial = -1
+    registry = []
+    emitted = []
+
+    cur = [0]
+
+    def truth(e):
+        emitted.append((e, [i for i, inc in enumerate(registry) if inc['alive']], cur[0]))
+    sup = supervisord.Supervisor(FakeOptions())
+    iface = rpcinterface.SupervisorNamespaceRPCInterface(sup)
+    subject = make_subprocess('subject', 'grp', ProcessStates.STOPPED, 77, 0, False, 100.0, 1, (0,))
+    results = []
+    try:
+        for oi, op in enumerate(ops):
+            cur[0] = oi
+            # the observer must not depend on the code under test keeping it subscribed
+            if (events.Event, truth) not in events.callbacks:
+                events.callbacks.insert(0, (events.Event, truth))
+            k = op[0]
+            if k == 'add_pool':
+                cfg = LivePoolConfig(FakeOptions('supervisor'), op[1], [getattr(events.EventTypes, t) for t in op[2]], registry)
+                results.append(sup.add_process_group(cfg))
+            elif k == 'remove_pool':
+                inc = [x for x in registry if x['name'] == op[1] and x['alive']]
+                if inc:
+                    for proc in inc[0]['pool'].processes.values():
+                        proc.state = ProcessStates.STOPPED
+                    inc[0]['alive'] = False     # before_remove() runs before REMOVED is raised
+                try:
+                    results.append(sup.remove_process_group(op[1]))
+                except KeyError:
+                    results.append('KeyError')
+                except ValueError:
+                    results.append('ValueError')
+                if inc:
+                    for proc in inc[0]['pool'].processes.values():
+                        proc.state = ProcessStates.RUNNING   # so that a stray delivery would be written and seen
+            elif k == 'state':
+                with patched_time(200.0):
+                    subject.change_state(op[1], True)
+            elif k == 'tick':
+                sup.tick(now=op[1])
+            elif k == 'log':
+                cls = events.ProcessLogStdoutEvent if op[1] == 'stdout' else events.ProcessLogStderrEvent
+                events.notify(cls(subject, subject.pid, op[2]))
+            elif k == 'comm':
+                cls = events.ProcessCommunicationStdoutEvent if op[1] == 'stdout' else events.ProcessCommunicationStderrEvent
+                events.notify(cls(subject, subject.pid, op[2]))
+            elif k == 'running':
+                events.notify(events.SupervisorRunningEvent())
+            elif k == 'stopping':
+                events.notify(events.SupervisorStoppingEvent())
+            elif k == 'remote':
+                iface.sendRemoteCommEvent(op[1], op[2])
+            else:
+                raise ValueError(op)
+            for inc in registry:
+                inc['stream'] += drain_pool(inc['pool'], inc['opts'])
+        out_emitted = [(type(e).__name__, e.payload(), getattr(e, 'serial', None), alive, oi) for e, alive, oi in emitted]
+        incs = [{'name': x['name'], 'types': [t.__name__ for t in x['types']], 'stream': x['stream'], 'alive': x['alive']}
+                for x in registry]
+        return out_emitted, incs, results
+    finally:
+        events.clear()
